@@ -2,9 +2,10 @@ import Arc.Base.Proto
 import Arc.Model.C13Current
 /-! Model driver for C13 (reads ops on stdin, prints one line per op).
 
-    tree <n> <path> <hex> … (n pairs, any order)          → ok n=<n>
-    backup mf=<0|1> r=<p,p|-> w=<p:pre,p:<k>|->           → completed …  | failed:<class>
-    restore into=<empty|orig> mf=<0|1> r=<…> w=<…>        → completed …  | failed:<class> …
+    tree <n> <path> <hex> … (n pairs, any order)                          → ok n=<n>
+    backup inc=<mc> mf=<0|1> sf=<0|1> cf=<0|1> r=<p,p|-> w=<p:pre,p:<k>|->  → completed … | failed:<class>
+    restore into=<empty|orig> opts=<dmc> mf= sf= cf= r=<…> w=<…>          → completed … | failed:<class> …
+    (inc / opts are bit strings: metadata,config / data,metadata,config; sf/cf = SQLite / arc.toml step fails)
 -/
 open Arc.Proto Arc.C13
 
@@ -38,13 +39,20 @@ def parseWrite (s : String) : Option (Path × Option Nat) :=
   | [p, k] => (nat? k).map fun k => (p.toList, some k)
   | _ => none
 
-def parseFaults (mf r w : String) : Option Faults :=
-  match kv "mf" mf, kv "r" r, kv "w" w with
-  | some mf, some r, some w =>
+def parseFaults (mf sf cf r w : String) : Option Faults :=
+  match kv "mf" mf, kv "sf" sf, kv "cf" cf, kv "r" r, kv "w" w with
+  | some mf, some sf, some cf, some r, some w =>
     match (parseList w).mapM parseWrite with
-    | some ws => some { manifest := mf == "1", read := (parseList r).map String.toList, write := ws }
+    | some ws => some { manifest := mf == "1", sqlite := sf == "1", config := cf == "1",
+                        read := (parseList r).map String.toList, write := ws }
     | none => none
-  | _, _, _ => none
+  | _, _, _, _, _ => none
+
+def bits (s : String) (n : Nat) : Option (List Bool) :=
+  let cs := s.toList
+  if cs.length == n && cs.all (fun c => c == '0' || c == '1') then some (cs.map (· == '1')) else none
+
+def b01 (b : Bool) : String := if b then "1" else "0"
 
 def parsePairs : List String → Tree → Option Tree
   | [], acc => some acc.reverse
@@ -61,32 +69,36 @@ def stepC13 (s : DS) (fs : List String) : DS × String :=
     | some n, some t =>
       if t.length == n then ({ s with tree := t }, s!"ok n={n}") else (s, "bad-op")
     | _, _ => (s, "bad-op")
-  | ["backup", mf, r, w] =>
-    match parseFaults mf r w with
-    | some f =>
-      let bk := backup current f (walkSort s.tree)
+  | ["backup", inc, mf, sf, cf, r, w] =>
+    match (kv "inc" inc).bind (bits · 2), parseFaults mf sf cf r w with
+    | some [im, ic], some f =>
+      let bk := backupFull current { metadata := im, config := ic } f (walkSort s.tree)
       let out := match bk.status, bk.manifest with
         | .completed, some m =>
           s!"completed total={m.totalFiles} size={m.totalSize} skipped={m.skipped} dbs={m.dbs} meas={m.meas} " ++
+          s!"hasmeta={b01 m.hasMetadata} hascfg={b01 m.hasConfig} " ++
           s!"ptotal={bk.total} processed={bk.processed} pbytes={bk.pbytes} pskipped={bk.skipped} store={showTree bk.store}"
         | .failedCopy, _ => "failed:copy"
         | .failedRatio, _ => "failed:ratio"
         | .failedManifest, _ => "failed:manifest"
         | .completed, none => "failed:internal"
       ({ s with bk := bk }, out)
-    | none => (s, "bad-op")
-  | ["restore", into, mf, r, w] =>
-    match kv "into" into, parseFaults mf r w with
-    | some into, some f =>
+    | _, _ => (s, "bad-op")
+  | ["restore", into, opts, mf, sf, cf, r, w] =>
+    match kv "into" into, (kv "opts" opts).bind (bits · 3), parseFaults mf sf cf r w with
+    | some into, some [od, om, oc], some f =>
       if into != "empty" && into != "orig" then (s, "bad-op") else
       let d0 : Tree := if into == "orig" then s.tree else []
-      let r := restore current f s.bk d0
+      let r := restoreBackup current { data := od, metadata := om, config := oc } f s.bk d0
       let st := match r.status with
         | .completed => "completed"
         | .failedNoManifest => "failed:nomanifest"
         | .failedData => "failed:data"
-      (s, s!"{st} processed={r.processed} total={r.total} pbytes={r.pbytes} tbytes={r.tbytes} tree={showTree r.data}")
-    | _, _ => (s, "bad-op")
+        | .failedSqlite => "failed:sqlite"
+        | .failedConfig => "failed:config"
+      (s, s!"{st} processed={r.processed} total={r.total} pbytes={r.pbytes} tbytes={r.tbytes} " ++
+          s!"db={b01 r.sqliteRestored} cfg={b01 r.configRestored} tree={showTree r.data}")
+    | _, _, _ => (s, "bad-op")
   | _ => (s, "bad-op")
 
 def main : IO Unit := Arc.Proto.run stepC13 {}
